@@ -21,11 +21,11 @@ WORKERS = {"quick": 4, "thorough": 16}
 WTESTS = {"groups": ['parser_chains'], "tests": ['tests/dec', 'tests/decay']}
 REQUIRED = {"depth>=3": 50, "repeated-daughter-in-line": 50, "empty-block-daughter": 20, "S-cuts-at-depth>=2": 50, "lines>=4": 50, "not-found-raises": 20,
             "S-contains-direct-daughters": 50, "S-as-set": 20, "S-as-tuple": 20, "S-all-subsets": 10, "daughters>=3": 50, "alias-mother": 10,
-            "corpus-mother": 20, "photos-line-in-chain": 20, "C09.build_decay_chains.is_unfolding": 300}
+            "corpus-mother": 20, "photos-line-in-chain": 20, "conjugated-table-in-set": 10, "earlier-instance-queried-again": 20, "reparsed-without-conjugates": 5, "C09.build_decay_chains.is_unfolding": 300}
 ASSUMPTIONS = ["table sets are acyclic (as quantified)", "the chain reports the model without the PHOTOS keyword; an absent parameter list '' == []"]
 
 
-def gen_tables(ctx, max_paths=3000, max_size=1500):
+def gen_tables(ctx, max_paths=3000, max_size=1500, same_names_as=None):
     """Acyclic table set as abstract statements: particles totally ordered, daughters from later ones / stable names."""
     r = ctx.rng
     g = decgen.Gen(r)
@@ -33,6 +33,10 @@ def gen_tables(ctx, max_paths=3000, max_size=1500):
         n = r.choice([2, 3, 4, 5, 6, 8])
         pool = [x for x in g.real if x.count("(") == x.count(")")]
         parts = r.sample(pool, n)
+        if same_names_as:       # another file over the same particle names (other lines): what a second parser instance would hold
+            keep = [x for x in same_names_as if x in pool]
+            r.shuffle(keep)
+            parts = (keep + parts)[:n]
         stable = r.sample([x for x in pool if x not in parts], 6) + ["Xunk", "q'"]
         aliases = {}
         stmts = []
@@ -80,9 +84,16 @@ def gen_tables(ctx, max_paths=3000, max_size=1500):
                               "model": mod[0], "params": list(mod[1])})
             blocks.append({"k": "Decay", "m": m, "lines": lines})
         r.shuffle(blocks)
-        stmts = decgen.interleave(r, stmts, blocks)
+        # conjugated tables (CDecay) are decay tables like any other: their lines are clones of the source's lines with other names
+        cds = []
+        for m in parts:
+            c = names_conj(m)
+            if r.random() < 0.3 and not c.startswith("ChargeConj(") and c != m and c not in parts and c not in stable:
+                cds.append({"k": "CDecay", "name": c})
+        stmts = decgen.interleave(r, stmts, blocks, cds)
         exp = L.expected(stmts)
-        T = {m: [{"bf": ln["bf"], "fs": ln["fs"], "model": ln["model"], "model_params": ln["params"]} for ln in lines] for m, lines in exp["tables"].items()}
+        alltabs = {**exp["tables"], **exp["derived"]}
+        T = {m: [{"bf": ln["bf"], "fs": ln["fs"], "model": ln["model"], "model_params": ln["params"]} for ln in lines] for m, lines in alltabs.items()}
         memo = {}
         ok = True
         for m in T:
@@ -91,6 +102,12 @@ def gen_tables(ctx, max_paths=3000, max_size=1500):
                 ok = False
         if ok:
             return stmts, T, parts, exp
+
+
+def names_conj(n):
+    from .. import names  # noqa: PLC0415
+
+    return names.conj(n)
 
 
 def stable_sets(ctx, T, m, parts):
@@ -184,15 +201,47 @@ def run_text(ctx, stmts, T, parts, exp, workload="gen"):
         ctx.hit("photos-line-in-chain")
     stypes = ["list", "tuple", "set"]
     k = 0
-    for m in parts[: ctx.pick(3, 4)]:
-        for S in stable_sets(ctx, T, m, parts):
+    derived = [m for m in exp["derived"]]
+    if derived:
+        ctx.hit("conjugated-table-in-set")
+    allparts = parts + [m for m in derived if m not in parts]
+    for m in parts[: ctx.pick(3, 4)] + derived[:2]:
+        for S in stable_sets(ctx, T, m, allparts):
             k += 1
             check(ctx, p, T, m, S, stypes[k % 3], wit, workload, exp["aliases"])
+        # an instance parsed earlier in this interpreter (kept alive) still answers from its own tables
+        if _prev and k % 2 == 0:
+            p0, T0, m0, wit0 = _prev[0]
+            ctx.hit("earlier-instance-queried-again")
+            check(ctx, p0, T0, m0, [], "list", wit0, "earlier-instance")
+    if derived and ctx.rng.random() < 0.6:
+        # the same instance parsed again without / with conjugated tables: chains follow the tables of the *last* parse
+        import warnings  # noqa: PLC0415
+
+        with warnings.catch_warnings():
+            warnings.simplefilter("ignore")
+            p.parse(include_ccdecays=False)
+        ctx.hit("reparsed-without-conjugates")
+        T_off = {m: T[m] for m in exp["tables"]}
+        w2 = {**wit, "reparsed": "include_ccdecays=False"}
+        users = [m for m in parts if any(d in derived for ln in T[m] for d in ln["fs"])]
+        for m in (users[:1] or parts[:1]):
+            check(ctx, p, T_off, m, [], "list", w2, workload + "-reparsed")
+        check_notfound(ctx, p, derived[0], w2)
+        with warnings.catch_warnings():
+            warnings.simplefilter("ignore")
+            p.parse()
+        check(ctx, p, T, derived[0], [], "list", {**wit, "reparsed": "off then on"}, workload + "-reparsed")
+    _prev.clear()
+    _prev.append((p, T, parts[0], wit))
     stable_only = [d for lines in T.values() for ln in lines for d in ln["fs"] if d not in T]
     for name in (stable_only[:1] + ["NoSuchParticle"]):
         check_notfound(ctx, p, name, wit)
     if len(ctx.samples) < 2:
         ctx.sample({"text": text, "mother": parts[0], "chain": chains.ref_unfold(T, parts[0], set())})
+
+
+_prev: list = []
 
 
 def run_corpus(ctx):
